@@ -78,12 +78,10 @@ func (p Prop) exec(c *Case, f *ops.Fault) (*ops.SingleRun, error) {
 	})
 }
 
-func committedBefore(sr *ops.SingleRun) int {
+// txCount is the number of transactions the (fault-free) run committed.
+func txCount(sr *ops.SingleRun) int {
 	n := 0
 	for _, ev := range sr.Events {
-		if ev.Fault != "" && ev.Fault != "rows_err(armed)" {
-			break
-		}
 		if ev.Kind == "commit" && ev.Err == "" {
 			n++
 		}
@@ -148,6 +146,8 @@ func (p Prop) Run(ci interface{}, focus *core.Violation) *core.Outcome {
 		}
 	}
 	seen := map[string]bool{}
+	baseTx := txCount(base)
+	out.Count(fmt.Sprintf("ops_with_%d_implicit_transactions", baseTx), 1)
 	for i := range faults {
 		f := &faults[i]
 		sr, err := p.exec(c, f)
@@ -171,7 +171,7 @@ func (p Prop) Run(ci interface{}, focus *core.Violation) *core.Outcome {
 		} else {
 			out.Count("not_fired:"+kind, 1)
 		}
-		key := fmt.Sprintf("%s|committed_before_fault=%d|%s", c.Op.Kind, committedBefore(sr), f.Short())
+		key := fmt.Sprintf("%s|implicit_transactions=%d|%s", c.Op.Kind, baseTx, f.Short())
 		if l := sr.Leak(); l != "" {
 			if viol("leak", key, fmt.Sprintf("after fault [%s]: %s", f, l), sr, f) {
 				return out
